@@ -4,16 +4,22 @@ selftest/mutants.jsonl (appended to by `./check selftest mutants`)."""
 import json, os
 ROOT = os.path.dirname(os.path.dirname(os.path.abspath(__file__)))
 rows = {}
+replays = {}
 p = os.path.join(ROOT, "selftest", "mutants.jsonl")
 if os.path.exists(p):
     for l in open(p):
         r = json.loads(l)
+        if r["result"].startswith("replay"):
+            replays[(r["seeded"], r["check"])] = r["result"]
+            continue
         rows[(r["seeded"], r["check"])] = r  # last run wins
+        replays.pop((r["seeded"], r["check"]), None)
 out = ["# Sensitivity: seeded changes vs. checks", "",
        "Each seeded change (`/verif/seeded/<id>/`) was written by an independent sub-agent that saw only the text of one",
        "property and a scratch worktree, and was confirmed by the lead (demo flips, full test suite passes with the change).",
        "`./check selftest mutants [ids]` applies each to a scratch worktree and runs the listed checks (quick tier) with",
-       "`VERIF_REPO` pointing at it. Results of the last run:", "",
+       "`VERIF_REPO` pointing at it; after a catch the replay file of the first violation is replayed in a fresh process",
+       "against the changed tree (must fail the same way) and the unchanged tree (must not fail): \"replay ok\". Results of the last run:", "",
        "| seeded change | breaks | what it is | needs | check | result | first violation reported |", "|---|---|---|---|---|---|---|"]
 for mid in sorted(os.listdir(os.path.join(ROOT, "seeded"))):
     mp = os.path.join(ROOT, "seeded", mid, "meta.json")
@@ -27,6 +33,8 @@ for mid in sorted(os.listdir(os.path.join(ROOT, "seeded"))):
     for c in checks:
         r = rows.get((mid, c))
         res = r["result"] if r else "not run"
+        if (mid, c) in replays:
+            res += "; " + replays[(mid, c)]
         fv = (r["first_violation"] if r else "").replace("|", "/")
         fv = fv[fv.find("clause="):][:150] if "clause=" in fv else fv[:150]
         out.append("| %s | %s | %s | %s | %s | %s | %s |" % (mid, m["property"], m["change"], m["needs_to_manifest"], c, res, fv))
